@@ -501,7 +501,12 @@ def shape_equality(ctx, rule="R15.2"):
     ctx.check(rule, "shape-equality:different-kinds", okd and bool(paths), "different-kinds-may-compare-equal", c.loc(fn), "shapes of different kinds are unequal")
 
 
+RULES["R15.1"] += " | entries-stay-in-place (who-may-permute): over every function of the property's modules, no Vec/slice operation that moves entries to other positions (reverse, swap, rotate, sort .., mem::swap of two entries) outside the table of sites confirmed on the pinned tree (common.PERMUTING_SITES)"
+
+
 def run(ctx):
+    from .common import no_permuting_ops
+    ctx.guard("R15.1", "entries-stay-in-place", no_permuting_ops, ctx, "R15.1", "tensor", {"src/tensor.rs"}, 40)
     ctx.guard("R15.2", "shape-equality", shape_equality, ctx, "R15.2")
     for op, nested in (("add_inplace", ("Nested", "NestedOptional")), ("sub_inplace", ()), ("mul_inplace", ()), ("hadamard", ()),
                        ("div_scalar_inplace", ("Nested",)), ("mean_inplace", ()), ("clamp", ())):
